@@ -108,7 +108,23 @@ def reordered(zoo: dict) -> dict:
     return out
 
 
-ZOOS = {"basic": BASIC}
+# legacy (parent-aware) node model: tuple, list, optional and required child fields
+LEGACY = {
+    "name": "legacy",
+    "prefix": "",
+    "classes": [
+        dict(name="LLeaf", base="ASTNode", fields=[P("a", "str", "str"), P("b", "int", "int", default="0")]),
+        dict(name="LSub", base="LLeaf", fields=[P("c", "str | None", "optstr", default="None")]),
+        dict(name="LUnary", base="ASTNode", fields=[C("child", "one", ["ASTNode"], "ASTNode")]),
+        dict(name="LOpt", base="ASTNode", fields=[C("child", "opt", ["LLeaf"], "LLeaf | None", default="None"),
+                                                    P("tag", "str", "str", default="''")]),
+        dict(name="LMany", base="ASTNode", fields=[C("items", "tuple", ["ASTNode"], "tuple[ASTNode, ...]", default="()"),
+                                                     C("head", "opt", ["LLeaf"], "LLeaf | None", default="None")]),
+        dict(name="LList", base="ASTNode", fields=[C("elems", "list", ["ASTNode"], "list[ASTNode]", default="field(default_factory=list)")]),
+    ],
+}
+
+ZOOS = {"basic": BASIC, "legacy": LEGACY}
 
 # --------------------------------------------------------------------------------------------
 # derived information
@@ -194,7 +210,7 @@ def render_py(zoo: dict, legacy: bool = False, postponed: bool = True) -> str:
         "from harness.pools import Color, IColor",
     ]
     if legacy:
-        lines.append("from pyoak.legacy.node import ASTNode")
+        lines.append("from pyoak.legacy.node import AwareASTNode as ASTNode")
     else:
         lines.append("from pyoak.node import ASTNode")
     lines.append("")
@@ -216,7 +232,9 @@ def render_py(zoo: dict, legacy: bool = False, postponed: bool = True) -> str:
                 args.append("init=False")
             if f["kw_only"]:
                 args.append("kw_only=True")
-            if not args:
+            if f["default"] is not None and f["default"].startswith("field("):
+                body.append(f"    {f['n']}: {ann} = {f['default']}")
+            elif not args:
                 body.append(f"    {f['n']}: {ann}")
             elif len(args) == 1 and args[0].startswith("default="):
                 body.append(f"    {f['n']}: {ann} = {f['default']}")
